@@ -7,6 +7,7 @@ from ..predabs import Vocab, PredAbs, A, Not, And, Or, T, F, translate, total, k
 from ..rules import common
 
 TITLE = "Every accepted task runs exactly once before pool shutdown completes"
+TECHNIQUE = 'custom static analysis over clang-14 CFG facts: must-lockset, condition-variable discipline, exception-edge modelling for task invocation, counting rules over worker bookkeeping'
 TP = "iora::core::ThreadPool"
 FILE = "iora/core/thread_pool.hpp"
 M, CM = TP + "::_mutex", TP + "::_configMutex"
